@@ -186,7 +186,9 @@ def check_C03(tier):
     corpus_trace(rep, "datasets", quick, own, [relaxed_table()] + ([] if quick else ["default"]), per_file=(14 if quick else 400),
                  variants=(2 if quick else 4),
                  extra=[gs.macrocycle(k) for k in (3, 14, 15, 16, 17, 255, 256, 257, 300)] +
-                       [gs.long_branch(k) for k in (0, 15, 16, 17, 255, 256, 300)])
+                       [gs.long_branch(k) for k in (0, 15, 16, 17, 255, 256, 300)] +
+                       # more than 99 ring closures, then fused / spiro rings: ring numbers reused while others are open
+                       ["C1CC1" * 99 + "C1CCC2CCCCC2C1C3CC3C4CCC5CC5C4", "C1CC1" * 100 + "C12CC1C2C34CC3C4"])
     rep.exhaustive = True
     rep.assumptions += ["SMILES subset: what the specification's reader accepts (encoder docstring); inputs the "
                         "library rejects are not counted against C03 (acceptance is not demanded, see DESIGN 5.1)",
